@@ -414,3 +414,71 @@ def guards_through(prog, root, f, x, fresh=True):
         if (k, t) in (common or ()):
             g.append((c, t))
     return g
+
+
+def loop_headers_containing(fn, bid):
+    """headers of the natural loops that contain block bid"""
+    out = set()
+    # back edges by DFS
+    color = {}
+    back = []
+    stack = [(fn.entry, iter([s for s in fn.blocks[fn.entry].succs if s is not None and s in fn.blocks]))]
+    color[fn.entry] = 1
+    while stack:
+        b, it = stack[-1]
+        nxt = next(it, None)
+        if nxt is None:
+            color[b] = 2
+            stack.pop()
+            continue
+        if color.get(nxt) == 1:
+            back.append((b, nxt))
+        elif nxt not in color:
+            color[nxt] = 1
+            stack.append((nxt, iter([s for s in fn.blocks[nxt].succs if s is not None and s in fn.blocks])))
+    for p_, h in back:
+        body = {h, p_}
+        work = [p_]
+        while work:
+            n = work.pop()
+            if n == h:
+                continue
+            for q in fn.blocks[n].preds:
+                if q not in body:
+                    body.add(q)
+                    work.append(q)
+        if bid in body:
+            out.add(h)
+    return out
+
+
+def hits_after(fn, start, is_target, is_barrier, barrier_blocks=()):
+    """elements reachable from just after `start` (element-level), walking forward through the CFG, that satisfy
+    is_target, on paths that do not pass an element satisfying is_barrier (or enter a block of barrier_blocks) first."""
+    hits = []
+    b0, i0 = fn.pos[start.id]
+    seen = set()
+    work = [(b0, i0 + 1)]
+    while work:
+        b, i = work.pop()
+        blk = fn.blocks[b]
+        stopped = False
+        elems = blk.elems
+        for k in range(i, len(elems)):
+            x = fn.x(elems[k]['i'])
+            if x is None:
+                continue
+            if is_barrier(x):
+                stopped = True
+                break
+            if is_target(x):
+                hits.append(x)
+                stopped = True
+                break
+        if stopped:
+            continue
+        for s_ in blk.succs:
+            if s_ is not None and s_ in fn.blocks and s_ not in seen and s_ not in barrier_blocks:
+                seen.add(s_)
+                work.append((s_, 0))
+    return hits
